@@ -212,6 +212,28 @@ static std::string handle(const std::string& cmd, const std::string& args) {
          std::to_string(ad.v[0].hkl[2]) + " " + decode(std::arg(ad.v[0].value) * 180 / PI);
     return s;
   }
+  if (cmd == "rx") {
+    // model correspondence for the row rule of Mtz::reindex: args r00..r22 | h k l ... -> kept rows with new indices
+    Op op;
+    for (int i = 0; i < 3; ++i)
+      for (int j = 0; j < 3; ++j)
+        op.rot[i][j] = (int) to_ll(w.at(3 * i + j));
+    op.tran = {{0, 0, 0}};
+    op.notation = 'x';
+    Mtz mtz;
+    mtz.set_cell_for_all(UnitCell(30, 40, 50, 90, 90, 90));
+    mtz.add_base();
+    std::vector<float> data;
+    for (size_t k = 10; k + 2 < w.size(); k += 3)
+      for (int j = 0; j < 3; ++j) data.push_back((float) to_ll(w[k + j]));
+    if (data.empty()) return "0";
+    mtz.set_data(data.data(), data.size());
+    mtz.reindex(op);
+    std::string out = std::to_string(mtz.nreflections);
+    for (size_t n = 0; n < mtz.data.size(); n += 3) out += " " + std::to_string((int) mtz.data[n]) + " " +
+        std::to_string((int) mtz.data[n + 1]) + " " + std::to_string((int) mtz.data[n + 2]);
+    return out;
+  }
   if (cmd == "pm") {
     // model correspondence for Mtz::positions_of_plus_minus_columns and the (+)/(-) swap of Mtz::ensure_asu.
     // args: columns as labelhex:type:dataset (the first three are H K L), then "|", then one row of small integers
